@@ -162,6 +162,14 @@ def handleC13 : Handler := fun comp a impl =>
       | "flv" => UrlCtx.parseHttpflvUrl u
       | k => UrlCtx.parseUrl u (int! k)
     some { model := outcome showCtx r, verdict := noPanic impl }
+  | "rtsp.msg", [_kind, _v, ato, avail] =>
+    let cl : RtspSrv.ContentLength := if ato == "-" then .absent else if ato == "e" then .bad else .val (int! ato)
+    let m := match RtspSrv.readMsgBody cl (optHex avail) with
+      | .ok (some (b, r)) => s!"ok {hx b} {hx r}"
+      | .ok none => "eof"
+      | .error .err => "err"
+      | .error (.panic _) => "panic"
+    some { model := m, verdict := noPanic impl }
   | "rtsp.session", ws :: auth :: d :: toks =>
     let dd : RtspSrv.Describe := if d == "no" then .refuse else if d == "nil" then .later else .sdp (hex! d)
     let m := match RtspSrv.runSession Codec.real (ws == "1") (nat! auth) dd (toks.map parseTok) with
